@@ -124,6 +124,15 @@ def run_slice(case, ctx):
         lb, ub = bound(case['lb'], grid), bound(case['ub'], grid)
         eff = oc or '(]'
         lb_arg, ub_arg = flavour(lb, case.get('lbf')), flavour(ub, case.get('ubf'))
+        if case.get('xtz'):
+            # a tz-aware index, the bounds the same instants quoted in ANOTHER zone: the rows kept are those of the naive twin
+            z1, z2 = case['xtz']
+            x = x.tz_localize(z1)
+            conv = lambda b: None if b is None else pd.Timestamp(b).tz_localize(z1).tz_convert(z2)
+            lb_arg, ub_arg = conv(lb), conv(ub)
+            if case.get('lbf') == 'pydt':
+                lb_arg, ub_arg = (None if lb_arg is None else lb_arg.to_pydatetime()), (None if ub_arg is None else ub_arg.to_pydatetime())
+            ctx.cls('aware_index_bounds_in_another_zone')
         if case.get('tuple_form') and lb is not None and ub is not None:
             st, res = ctx.call(df_slice, x, (lb_arg, ub_arg), None, eff)
         else:
@@ -136,11 +145,17 @@ def run_slice(case, ctx):
     ok = st == 'ok' and type(res) is type(x)
     if ok:
         got = rows_of(res)
+        if case.get('xtz') and not case.get('tod'):
+            got = [(t.replace(tzinfo=None) if t.utcoffset() == pd.Timestamp(t.replace(tzinfo=None)).tz_localize(case['xtz'][0]).utcoffset() else 'moved', r) for t, r in got]      # back to the wall clock of the index's own zone
         ok = len(got) == len(keep) and all(a[0] == b[0] and req(a[1], b[1]) for a, b in zip(got, keep))
         if ok and isinstance(x, pd.DataFrame):
             ok = list(res.columns) == list(x.columns)
+    if case.get('xtz') and not case.get('tod'):
+        before_cmp = [(t.replace(tzinfo=None), r) for t, r in rows_of(x)]
+    else:
+        before_cmp = rows_of(x)
     ctx.check(mon, ok, lambda: '%s on index %s = %s %s ; model keeps %s' % (what, [t.strftime('%d %H:%M') for t, _ in before], st, [t.strftime('%d %H:%M') for t, _ in rows_of(res)] if st == 'ok' and hasattr(res, 'index') else res, [t.strftime('%d %H:%M') for t, _ in keep]))
-    ctx.check('input_unmodified', len(rows_of(x)) == len(before) and all(a[0] == b[0] and req(a[1], b[1]) for a, b in zip(rows_of(x), before)), lambda: 'input modified')
+    ctx.check('input_unmodified', len(before_cmp) == len(before) and all(a[0] == b[0] and req(a[1], b[1]) for a, b in zip(before_cmp, before)), lambda: 'input modified')
     on_point = False
     idxset = {t for t, _ in before}
     if case.get('tod'):
@@ -185,6 +200,9 @@ def run_stitch(case, ctx):
     live = [mk_ts(s, grid) for s in specs]
     srows = [[(t, r[0]) for t, r in rows_of(o)] for o in live]
     ubs = [bound(b, grid) for b in case['ubs']]
+    if case.get('far_last'):
+        ubs[-1] = datetime.datetime(3000, 1, 1) if case['far_last'] == 'y3000' else datetime.datetime.max.replace(microsecond=0)     # 'never expires' written as a far-away date
+        ctx.cls('stitch:last_bound_far_away')
     n = case['n']
     rev = case.get('decreasing')
     arg_series = live[::-1] if rev else live
@@ -382,6 +400,10 @@ def gen_case(rng):
         if rng.random() < 0.3:
             case['lbf'] = rng.choice([None, 'Timestamp', 'dt64', 'str', 'date'])
             case['ubf'] = rng.choice([None, 'Timestamp', 'dt64', 'str', 'date'])
+        elif rng.random() < 0.15 and not case['future'] and len(set(ts)) == len(ts):
+            case['xtz'] = rng.choice([['America/New_York', 'UTC'], ['Europe/London', 'Asia/Tokyo'], ['UTC', 'America/New_York'], ['Asia/Tokyo', 'Europe/London']])
+            case['lbf'] = rng.choice([None, 'pydt'])
+            case['tuple_form'] = False
         return case
     if r < 0.7:
         ts = sorted(rng.sample(range(72), rng.randint(1, 30)))
@@ -431,6 +453,8 @@ def gen_case(rng):
     n = rng.randint(1, k)
     case = {'kind': 'stitch', 'grid': grid, 'series': series, 'ubs': ubs, 'n': n, 'decreasing': rng.random() < 0.3, 'explicit_oc': rng.random() < 0.3, 'unslice': rng.random() < 0.7}
     r2 = rng.random()
+    if rng.random() < 0.12:
+        case['far_last'] = rng.choice(['y3000', 'max'])
     if r2 < 0.12:
         case['bounds_as'] = 'lb'
     elif r2 < 0.24:
